@@ -843,6 +843,9 @@ func (p *Program) privateAlloc(o types.Object) bool {
 			if p.Info.Defs[id] != nil {
 				return true // the declaration itself
 			}
+			if _, isRet := p.Parent(id).(*ast.ReturnStmt); isRet {
+				return true // handing it out ends the function: nothing can have reached it before
+			}
 			sel, isSel := p.Parent(id).(*ast.SelectorExpr)
 			if !isSel || sel.X != ast.Expr(id) {
 				ok = false
